@@ -129,6 +129,27 @@ impl<E> CQueue<E> {
         }
     }
 
+    /// Creates a new parameteriszed `CQueue` whose clock starts at `t_start`
+    /// instead of `Duration::ZERO`, so `t_start` is the initial lower bound
+    /// for the insertion of new events.
+    #[must_use]
+    #[allow(clippy::cast_possible_truncation)]
+    pub fn new_at(n: usize, t: Duration, t_start: Duration) -> Self {
+        let mut this = Self::new(n, t);
+
+        // Place the window [t0, t1] onto the bucket that contains t_start,
+        // as if the queue had already been advanced to this point in time.
+        let k = t_start.as_nanos() / this.t_nanos;
+        let t0 = k * this.t_nanos;
+
+        this.head = (k % n as u128) as usize;
+        this.t0 = Duration::new((t0 / 1_000_000_000) as u64, (t0 % 1_000_000_000) as u32);
+        this.t1 = this.t0 + t;
+        this.t_current = t_start;
+
+        this
+    }
+
     ///
     /// Adds an event to the calenderqueue.
     ///
